@@ -223,6 +223,7 @@ class Run:
         self.apis = []
         self.devs = []
         self.remotes: dict = {}
+        self.keep: list = []          # a client keeps what it was given: every returned object stays referenced for the scenario
 
     def log(self, **e):
         self.ev.append(e)
@@ -374,6 +375,7 @@ class Run:
             out = "runtime" if type(exc) is RuntimeError else "raise"
             self.log(ev="Ret", c=k + 1, out=out, exc=type(exc).__name__, ok=False, r={})
             return
+        self.keep.append(res)
         try:
             r = _result_fields(op["op"], res, _spec_args(op["op"], op["a"]))
         except Exception as x:  # noqa: BLE001
